@@ -690,6 +690,23 @@ def deepUpdate (dest : Y) : Dict → R Y
       let dest' ← pySetItem dest k v
       deepUpdate dest' rest
 
+/-- what reference resolution needs of a parsed rule / correlation rule: the key it is registered
+under in `ids_to_rules` (normalised hex digits of a valid UUID), its name, and the references a
+correlation rule resolves -/
+structure Obj where
+  idKey : Y := .null
+  name : Y := .null
+  refs : List Str := []
+
+/-- `UUID` objects are equal when their 128-bit values are: compare normalised lower-case hex digits -/
+def uuidKey (s : Str) : Str := lowerS (uuidHex s)
+
+/-- `rule.id` as a key of `ids_to_rules`: only a valid identifier becomes a `UUID` object -/
+def idKeyOf (d : Y) : Y :=
+  match d with
+  | .map m => (match dget m (S "id") with | .str s => if uuidOk s then .str (uuidKey s) else .null | _ => .null)
+  | _ => .null
+
 structure CollSt where
   prev : Y := .map []
   glob : Y := .map []
@@ -698,6 +715,7 @@ structure CollSt where
   names : List Y := []              -- `rule.name` of the parsed rules and correlation rules
   nRules : Nat := 0
   nFilters : Nat := 0
+  objs : List Obj := []             -- the parsed rules and correlation rules, in order
 
 def strEq (v : Y) (s : Str) : Bool := keyIs v s
 
@@ -707,6 +725,26 @@ def nameOf (d : Y) : Y :=
   match d with
   | .map m => (match dget m (S "name") with | .str s => .str s | _ => .null)
   | _ => .null
+
+def strsOf : List Y → List Str
+  | [] => []
+  | .str s :: rest => s :: strsOf rest
+  | _ :: rest => strsOf rest
+
+/-- the references `SigmaCorrelationRule.resolve_rule_references` resolves: the `rules` list, or —
+when it is `None` — the identifiers of the extended condition -/
+def corrRefs (d : Y) : List Str :=
+  match d with
+  | .map m =>
+    (match corrSections m with
+     | .ok (_, rules, cond, _) =>
+         if rules.isEmpty && cond.isExtended then (match cond with | .extended refs => refs | _ => [])
+         else strsOf rules
+     | .error _ => [])
+  | _ => []
+
+def ruleObj (d : Y) : Obj := { idKey := idKeyOf d, name := nameOf d }
+def corrObj (d : Y) : Obj := { idKey := idKeyOf d, name := nameOf d, refs := corrRefs d }
 
 /-- one iteration of the loop of `SigmaCollection.from_dicts` -/
 def collStep (collect : Bool) (st : CollSt) (doc : Y) : R CollSt :=
@@ -718,7 +756,7 @@ def collStep (collect : Bool) (st : CollSt) (doc : Y) : R CollSt :=
     if action.isNone then
       if keys.any (keyIs · (S "correlation")) then do
         let es ← corrFromDict collect doc
-        pure { st with errs := st.errs ++ es, names := st.names ++ [nameOf doc] }
+        pure { st with errs := st.errs ++ es, names := st.names ++ [nameOf doc], objs := st.objs ++ [corrObj doc] }
       else if keys.any (keyIs · (S "filter")) then do
         let es ← filterFromDict collect doc
         pure { st with errs := st.errs ++ es, nFilters := st.nFilters + 1 }
@@ -727,7 +765,7 @@ def collStep (collect : Bool) (st : CollSt) (doc : Y) : R CollSt :=
         let merged ← deepUpdate doc g
         let es ← ruleFromDict collect merged
         pure { st with errs := st.errs ++ es, prev := merged, prevIsGlob := false, nRules := st.nRules + 1,
-                       names := st.names ++ [nameOf merged] }
+                       names := st.names ++ [nameOf merged], objs := st.objs ++ [ruleObj merged] }
     else if strEq action (S "global") then do
       let items ← pyItems doc
       let g := Y.map (dictDelKey items (S "action"))
@@ -739,7 +777,7 @@ def collStep (collect : Bool) (st : CollSt) (doc : Y) : R CollSt :=
       let p ← deepUpdate st.prev src
       let es ← ruleFromDict collect p
       pure { st with errs := st.errs ++ es, prev := p, glob := if st.prevIsGlob then p else st.glob,
-                     nRules := st.nRules + 1, names := st.names ++ [nameOf p] }
+                     nRules := st.nRules + 1, names := st.names ++ [nameOf p], objs := st.objs ++ [ruleObj p] }
     else if collect then pure { st with errs := st.errs ++ [.collectionError] }
     else raiseS .collectionError
 
@@ -760,8 +798,38 @@ def collFromDicts (collect : Bool) (docs : List Y) : R (List SigmaCls) := do
   collPostInit st
   pure st.errs
 
+/-! ### reference resolution (`resolve_references=True`, the default) -/
+/-- `d[k]` on a dict given by its keys -/
+def pyKeyLookup (keys : List Y) (k : Y) : R Unit :=
+  if keys.any (keyEq k) then pure () else raiseP .keyError
+
+/-- `SigmaCollection.__getitem__(ref)` for a string: by identifier if `ref` is a UUID, else by name;
+`KeyError` becomes `SigmaRuleNotFoundError` -/
+def collGetItem (objs : List Obj) (ref : Str) : R Unit :=
+  catchPy [.keyError]
+    (catchPy [.valueError]
+      (do pyUUID (.str ref); pyKeyLookup (objs.map (·.idKey)) (.str (uuidKey ref)))
+      (pyKeyLookup (objs.map (·.name)) (.str ref)))
+    (raiseS .ruleNotFoundError)
+
+/-- `SigmaCollection.resolve_rule_references`: every correlation rule resolves its references in
+order (back references, output flags, filter re-application and sorting raise nothing) -/
+def collResolve (objs : List Obj) : R Unit :=
+  forEach (fun o => forEach (collGetItem objs) o.refs) objs
+
+/-- `SigmaCollection.from_dicts(docs, collect_errors)` with reference resolution: strict mode
+resolves in the constructor; collecting mode resolves afterwards and collects the Sigma error -/
+def collFromDictsRef (collect : Bool) (docs : List Y) : R (List SigmaCls) := do
+  let st ← collLoop collect {} docs
+  collPostInit st
+  if collect then
+    catchSigma none (do collResolve st.objs; pure st.errs) (fun c => pure (st.errs ++ [c]))
+  else do
+    collResolve st.objs
+    pure st.errs
+
 /-! ## the observables -/
-inductive Kind | rule | corr | filter | collection deriving DecidableEq, Repr
+inductive Kind | rule | corr | filter | collection | collectionRef deriving DecidableEq, Repr
 
 /-- a single document is loaded as a one-document collection (as `harness/c07.py` does) -/
 def collDocs (d : Y) : List Y := match d with | .list l => l | v => [v]
@@ -772,6 +840,7 @@ def load (k : Kind) (collect : Bool) (d : Y) : R (List SigmaCls) :=
   | .corr => corrFromDict collect d
   | .filter => filterFromDict collect d
   | .collection => collFromDicts collect (collDocs d)
+  | .collectionRef => collFromDictsRef collect (collDocs d)
 
 /-- strict loading: succeeds or raises -/
 def strict (k : Kind) (d : Y) : R Unit := (load k false d).map (fun _ => ())
